@@ -108,30 +108,66 @@ def sensitivity_self_test(ctx):
         ctx.cov.notes.append("oracle self-test: 3/3 in-memory perturbations flagged; unchanged maps accepted")
 
 
+JOB_LIMIT_S = {"quick": 100, "thorough": 1200}
+
+
+def guarded(make, tier):
+    """Arm a per-job wall-clock limit inside the worker that builds the instance: a changed implementation that
+    makes the simulator oscillate or crawl ends as a TimeoutError (reported as a broken correspondence), not as
+    an endless run."""
+    def mk():
+        import signal
+
+        def on_alarm(signum, frame):
+            raise TimeoutError("C17 job exceeded its %d s limit (implementation hangs or is far slower than on "
+                               "the unchanged tree)" % JOB_LIMIT_S[tier])
+        try:
+            signal.signal(signal.SIGALRM, on_alarm)
+            signal.alarm(JOB_LIMIT_S[tier])
+        except ValueError:          # not in the main thread of the process
+            pass
+        return make()
+    return mk
+
+
 def jobs(tier):
     quick = tier == "quick"
     mod = _mod()
     J = []
-    A = lambda mk, **kw: J.append(Job("A", mk, max_states=60000 if quick else 1000000, **kw))
-    B = lambda mk, **kw: J.append(Job("B", mk, cycles=1500 if quick else 8000, runs=1 if quick else 2, **kw))
+    A = lambda mk, **kw: J.append(Job("A", guarded(mk, tier), max_states=60000 if quick else 1000000, **kw))
+    B = lambda mk, **kw: J.append(Job("B", guarded(mk, tier), cycles=1500 if quick else 8000,
+                                      runs=1 if quick else 2, **kw))
+    S3 = c17lib.SYMS4[:1] + c17lib.SYMS4[2:]
     A(lambda: c17lib.EncoderInst(mod, 1, False))
     A(lambda: c17lib.EncoderInst(mod, 1, True))
-    A(lambda: c17lib.EncoderInst(mod, 2, False, symbols=c17lib.SYMS4[:1] + c17lib.SYMS4[2:] if quick else c17lib.SYMS4))
+    A(lambda: c17lib.EncoderInst(mod, 2, False, symbols=S3 if quick else c17lib.SYMS4))
+    A(lambda: c17lib.EncoderInst(mod, 2, True, symbols=S3 if quick else c17lib.SYMS4))
     A(lambda: c17lib.DecoderInst(mod, False))
     A(lambda: c17lib.DecoderInst(mod, True))
     A(lambda: c17lib.make_stream_inst("enc", mod, 1, "A"))
     A(lambda: c17lib.make_stream_inst("dec", mod, 1, "A"))
     A(lambda: c17lib.make_stream_inst("enc", mod, 2, "A"))
+    # the default-argument paths (`Encoder()`, `Decoder()`, `StreamEncoder()`, `StreamDecoder()`): nwords=1, msb first
+    A(lambda: c17lib.EncoderInst(mod, 1, False, via_default=True))
+    A(lambda: c17lib.DecoderInst(mod, False, via_default=True))
+    A(lambda: c17lib.make_stream_inst("enc", mod, 1, "A", via_default=True))
+    A(lambda: c17lib.make_stream_inst("dec", mod, 1, "A", via_default=True))
     if not quick:
         A(lambda: c17lib.make_stream_inst("codec", mod, 1, "A"))
-        A(lambda: c17lib.EncoderInst(mod, 2, True))
+        A(lambda: c17lib.make_stream_inst("dec", mod, 2, "A"))
+        A(lambda: c17lib.EncoderInst(mod, 3, False, symbols=S3[:2]))
+    # every nwords of the quantifier (1..4, incl. the non-power-of-two 3) x both bit orders
     for n in (1, 2, 3, 4):
-        B(lambda n=n: c17lib.EncoderInst(mod, n, bool(n % 2)))
+        for lsb in (False, True):
+            B(lambda n=n, lsb=lsb: c17lib.EncoderInst(mod, n, lsb))
         B(lambda n=n: c17lib.make_stream_inst("enc", mod, n, "B"))
         B(lambda n=n: c17lib.make_stream_inst("dec", mod, n, "B"))
-    for n in (1, 2, 4) if quick else (1, 2, 3, 4):
         B(lambda n=n: c17lib.make_stream_inst("enc", mod, n, "B", bubbles=False))
         B(lambda n=n: c17lib.make_stream_inst("codec", mod, n, "B"))
+    if not quick:
+        # beyond the quantifier: 5 lanes (50-bit source, 45-bit sink payload)
+        B(lambda: c17lib.EncoderInst(mod, 5, True))
+        B(lambda: c17lib.make_stream_inst("codec", mod, 5, "B"))
     B(lambda: c17lib.DecoderInst(mod, False))
     B(lambda: c17lib.DecoderInst(mod, True))
     return J
@@ -157,7 +193,11 @@ def run_corpus(ctx):
                                           "corpus", "C17", "*.json")))
     for f in files:
         entry = json.load(open(f))
-        inst = corpus_inst(entry)
+        try:
+            inst = corpus_inst(entry)
+        except Exception as e:
+            dis.append(_exc_disagreement("corpus/%s: building the instance" % os.path.basename(f), e))
+            continue
         trace = [tuple(l) for l in entry["trace"]]
         mon = inst.monitor()
         outs, msg = [], None
@@ -186,12 +226,114 @@ def run_corpus(ctx):
     return dis
 
 
+def helper_functions(ctx):
+    """The module-level helpers users name symbols with (`K(x, y)`, `D(x, y)`) and the disparity helper the tables
+    are built with: against their definition, and — for the 12 control symbols as users obtain them, `K(28, 5)` … —
+    through the real encoder and decoder."""
+    mod = _mod()
+    dis = []
+    names = [(28, y) for y in range(8)] + [(23, 7), (27, 7), (29, 7), (30, 7)]
+    enc, dec = ctx.real_enc, ctx.real_dec
+    ncase = 0
+    for (x, y) in names:
+        sym = mod.K(x, y)
+        ncase += 1
+        for disp in (0, 1):
+            exp = c17lib.ref_encode((y << 5) | x, 1, disp)
+            got = enc.get((sym, 1, disp)) if isinstance(sym, int) and 0 <= sym < 256 else None
+            back = dec.get(got[0]) if got else None
+            if got != exp or back != ((y << 5) | x, 1, 0):
+                dis.append(TableDisagreement("K(%d,%d) through SingleEncoder+Decoder" % (x, y),
+                                             {"K(x,y)": sym, "disp_in": disp}, [got, back],
+                                             [list(exp), [(y << 5) | x, 1, 0]], kind="helper"))
+    for x in range(32):
+        for y in range(8):
+            ncase += 1
+            if mod.D(x, y) != ((y << 5) | x):
+                dis.append(TableDisagreement("D(%d,%d)" % (x, y), {"x": x, "y": y}, mod.D(x, y), (y << 5) | x,
+                                             kind="helper"))
+    for nbits in (4, 6, 10):
+        for w in range(1 << nbits):
+            ncase += 1
+            if mod.disparity(w, nbits) != 2 * bin(w).count("1") - nbits:
+                dis.append(TableDisagreement("disparity(%d,%d)" % (w, nbits), {"word": w, "nbits": nbits},
+                                             mod.disparity(w, nbits), 2 * bin(w).count("1") - nbits, kind="helper"))
+                break
+    model_k = sorted(int(x) for x in ctx.lean.call("ksyms").split())
+    if model_k != sorted(mod.K(x, y) for (x, y) in names) or model_k != sorted(c17lib.K_SYMBOLS):
+        dis.append(TableDisagreement("control symbol set", {}, sorted(mod.K(x, y) for (x, y) in names), model_k,
+                                     kind="helper"))
+    ctx.cov.add_cases("helpers K/D/disparity and the 12 K symbols through the real codec", ncase, ncase,
+                      exhaustive=not dis)
+    return dis[:6]
+
+
+def _exc_disagreement(where, e):
+    import traceback
+    return {"kind": "correspondence-exception", "instance": where,
+            "what": "%s raised %r on this tree (it does not on the unchanged one): the tie no longer checks" % (where, e),
+            "traceback": traceback.format_exc()[-2000:]}
+
+
+def _limited(seconds, fn):
+    """Run fn() in the parent under a wall-clock limit."""
+    import signal
+
+    def on_alarm(signum, frame):
+        raise TimeoutError("exceeded %d s" % seconds)
+    old = signal.signal(signal.SIGALRM, on_alarm)
+    signal.alarm(seconds)
+    try:
+        return fn()
+    finally:
+        signal.alarm(0)
+        signal.signal(signal.SIGALRM, old)
+
+
 def correspond(ctx):
-    dis = run_corpus(ctx)
-    dis += exhaustive_functions(ctx)
+    """Every stage is fenced: an exception or a hang while building or driving a changed implementation becomes a
+    reported disagreement and the remaining stages still run (so that the failing-input search has material)."""
+    from leanproc import LeanDriver
+    dis = []
+    for name, stage in (("corpus replay", run_corpus), ("exhaustive function tie", exhaustive_functions),
+                        ("helper functions", helper_functions)):
+        try:
+            dis += _limited(60 if ctx.tier == "quick" else 300, lambda: stage(ctx))
+        except Exception as e:
+            dis.append(_exc_disagreement(name, e))
+            try:
+                ctx.lean.quit()
+            except Exception:
+                pass
+            ctx.lean = LeanDriver(ctx.prop)
     ctx.jobs = jobs(ctx.tier)
-    d2, bad = run_jobs(ctx, ctx.jobs)
-    return dis + d2
+    try:
+        d2, bad = run_jobs(ctx, ctx.jobs)
+        dis += d2
+    except Exception as e:
+        # some job raised (constructor, port missing, width changed, time limit): find out which, keep the others
+        dis.append(_exc_disagreement("parallel job run", e))
+        import time
+        t_end = time.time() + (60 if ctx.tier == "quick" else 600)
+        for k, job in enumerate(ctx.jobs):
+            if time.time() > t_end:
+                break
+            try:
+                d2, _ = _limited(JOB_LIMIT_S[ctx.tier], lambda: run_jobs(ctx, [job], procs=1))
+                for d in d2:
+                    d.job = k
+                dis += d2
+            except Exception as e2:
+                dis.append(_exc_disagreement("job #%d (%s)" % (k, job.mode), e2))
+                if isinstance(e2, TimeoutError):
+                    break       # a hanging implementation: one witness is enough, do not wait for every job
+    finally:
+        try:
+            import signal
+            signal.alarm(0)
+        except Exception:
+            pass
+    return dis
 
 
 # -- known finding ----------------------------------------------------------------------------------------------
@@ -229,12 +371,35 @@ def probes(ctx):
 
 # -- failing-input search -----------------------------------------------------------------------------------------
 
+CONSTRUCTIONS = ([("SingleEncoder", (lsb,)) for lsb in (False, True)] +
+                 [("Encoder", (n, lsb)) for n in (1, 2, 3, 4) for lsb in (False, True)] +
+                 [("Decoder", (lsb,)) for lsb in (False, True)] +
+                 [("StreamEncoder", (n,)) for n in (1, 2, 3, 4)] + [("StreamDecoder", (n,)) for n in (1, 2, 3, 4)] +
+                 [("Encoder", ()), ("Decoder", ()), ("StreamEncoder", ()), ("StreamDecoder", ())])
+
+
+def construction_probe(mod, only=None):
+    """Build and elaborate every class x argument tuple the property quantifies over (1..4 words, both bit orders,
+    default arguments); a constructor that raises is a concrete failing input: that wrapper does not exist."""
+    from netlist import Netlist
+    for cls, args in CONSTRUCTIONS:
+        if only is not None and (cls, list(args)) != only:
+            continue
+        try:
+            _limited(30, lambda: Netlist(getattr(mod, cls)(*args)))
+        except Exception as e:
+            return {"kind": "construction", "instance": "code_8b10b.%s%r" % (cls, args), "class": cls,
+                    "args": list(args), "exception": repr(e),
+                    "what": "code_8b10b.%s%r cannot be built/elaborated: %r" % (cls, args, e)}
+    return None
+
+
 def search(ctx, disagreements, proof_info):
     mod = _mod()
     # (1) the finite functions of the real code against the property itself (no model involved)
     try:
-        enc = getattr(ctx, "real_enc", None) or c17lib.real_encoder_map(mod, False)
-        dec = getattr(ctx, "real_dec", None) or c17lib.real_decoder_map(mod, False)
+        enc = getattr(ctx, "real_enc", None) or _limited(60, lambda: c17lib.real_encoder_map(mod, False))
+        dec = getattr(ctx, "real_dec", None) or _limited(60, lambda: c17lib.real_decoder_map(mod, False))
         r = c17lib.static_search(enc, dec)
         if r:
             if r["kind"] == "sequence":
@@ -247,11 +412,34 @@ def search(ctx, disagreements, proof_info):
                 r["replayed_on_real_Encoder(1)"] = c17lib.replay_symbols_on_real_encoder(mod, [tuple(s) for s in r["dk"]])
             r["instance"] = "code tables / SingleEncoder+Decoder (static)"
             return r
+        # (1b) the symbols as users obtain them: K(x, y) / D(x, y) through the real encoder and decoder
+        names = [(28, y) for y in range(8)] + [(23, 7), (27, 7), (29, 7), (30, 7)]
+        for helper, k, pairs in ((mod.K, 1, names), (mod.D, 0, [(x, y) for y in range(8) for x in range(32)])):
+            for (x, y) in pairs:
+                sym = helper(x, y)
+                want = ((y << 5) | x, k, 0)
+                for disp in (0, 1):
+                    got = dec.get(enc[(sym, k, disp)][0]) if isinstance(sym, int) and 0 <= sym < 256 else None
+                    if got != want:
+                        return {"kind": "helper", "instance": "code_8b10b.%s + SingleEncoder + Decoder" % helper.__name__,
+                                "call": "%s(%d, %d)" % (helper.__name__, x, y), "returned": sym, "disp_in": disp,
+                                "decoded": got, "expected": list(want),
+                                "what": "the symbol obtained as %s(%d, %d) = %r, encoded under RD%s and decoded, is %r "
+                                        "instead of %s%d.%d" % (helper.__name__, x, y, sym, "+" if disp else "-", got,
+                                                                 "K" if k else "D", x, y)}
     except Exception as e:   # a mutation may stop the modules from elaborating
         ctx.log("static search failed: %r" % (e,))
+    # (1c) can every wrapper of the quantifier still be built and elaborated?
+    r = construction_probe(mod)
+    if r:
+        return r
     # (2) the machines with their monitors
     machine_dis = [d for d in disagreements if not isinstance(d, TableDisagreement)]
-    return generic_search(ctx, machine_dis, getattr(ctx, "jobs", None) or jobs(ctx.tier), FMT)
+    try:
+        return generic_search(ctx, machine_dis, getattr(ctx, "jobs", None) or jobs(ctx.tier), FMT)
+    finally:
+        import signal
+        signal.alarm(0)     # the per-job limit armed by the instance factories must not outlive the search
 
 
 def replay(ctx, payload):
@@ -265,6 +453,27 @@ def replay(ctx, payload):
             return 1
         print("sequence no longer violates the property on the current tree")
         return 0
+    if fi.get("kind") == "construction":
+        r = construction_probe(mod, only=(fi["class"], [bool(a) if isinstance(a, bool) else a for a in fi["args"]]))
+        if r:
+            print(r["what"])
+            print("VIOLATION property=%s replay=(replayed)" % ctx.prop)
+            return 1
+        print("the construction succeeds on the current tree")
+        return 0
+    if fi.get("kind") == "helper":
+        enc, dec = c17lib.real_encoder_map(mod, False), c17lib.real_decoder_map(mod, False)
+        name, args = fi["call"].split("(")
+        x, y = [int(a) for a in args.rstrip(")").split(",")]
+        sym = getattr(mod, name)(x, y)
+        k = 1 if name == "K" else 0
+        got = dec.get(enc[(sym, k, fi["disp_in"])][0]) if isinstance(sym, int) and 0 <= sym < 256 else None
+        if got != ((y << 5) | x, k, 0):
+            print("%s = %r encodes/decodes to %r" % (fi["call"], sym, got))
+            print("VIOLATION property=%s replay=(replayed)" % ctx.prop)
+            return 1
+        print("helper call no longer violates the property on the current tree")
+        return 0
     if fi.get("kind") == "invalid_ones":
         dec = c17lib.real_decoder_map(mod, False)
         w = int(fi["word"], 2)
@@ -276,4 +485,8 @@ def replay(ctx, payload):
         print("word no longer violates the property on the current tree")
         return 0
     from explore import generic_replay
-    return generic_replay(ctx, payload, jobs("thorough"))
+    try:
+        return generic_replay(ctx, payload, jobs("thorough"))
+    finally:
+        import signal
+        signal.alarm(0)
